@@ -377,6 +377,19 @@ func c17Pipe(e *Env, stdin bool) {
 	g := newFifoGate(source)
 	baseCount := logCountVar()
 	patterns := []string{pattern}
+	// One run in three (not for stdin): a second pipe that no writer ever opens is tailed as well; its
+	// stream idles on the same waker as the busy one for the whole run and must end with it.
+	if !stdin && e.Choose("gen", 3) == 0 {
+		idle := filepath.Join(e.Dir, "idle-pipe")
+		if err := syscall.Mkfifo(idle, 0o600); err != nil {
+			e.Broken("mkfifo: %v", err)
+			return
+		}
+		newFifoGate(idle)
+		patterns = append(patterns, idle)
+		baseCount++ // its stream is expected too
+		e.Probe("idle_second_pipe")
+	}
 	if twoPatterns {
 		patterns = append(patterns, filepath.Join(e.Dir, "pi*"))
 		e.Probe("pipe_matches_two_patterns")
